@@ -3,6 +3,8 @@ Bridge for C02: fingerprints of the normalised source of the functions the model
 transcribe (Model/Sanitize.lean, Model/Toposort.lean), regenerated from /repo on every run.
 The models were validated (O-level correspondence, notes/C02.md) against exactly these
 versions; a changed pin says "the hand model is no longer known to describe this function".
+(`appendToList` was re-pinned after the coordinator's fix commit that appends to a clipped
+slice: how the list is BUILT is not part of the model, only its element order, which is unchanged.)
 -/
 import CueVerif.Gen.C02
 namespace CueVerif.Bridge.C02
